@@ -251,6 +251,38 @@ def lark_show(rules: dict[str, tuple[str, Any]]) -> str:
 	return ';'.join(f"{hx(name + (f'[{u}]' if u else ''))}={show(node)}" for name, (u, node) in rules.items())
 
 
+
+def tree_show(tree: Any) -> str:
+	"""What Rules.from_ast must build from a WELL-SHAPED tuple tree, written in the `rules_show` format by an independent walk
+	of the tree (no tranp code): the oracle for the rule loader."""
+	def value(v: str) -> str:
+		body = v[1:-1]
+		return SPACE_CODES.get(body, body)
+
+	def show(t: Any) -> str:
+		name, body = t
+		if isinstance(body, str):
+			if name == 'symbol':
+				return f'p:{hx(body)}:S:N'
+			if name == 'string':
+				return f'p:{hx(value(body))}:T:E'
+			return f'p:{hx(body[1:-1])}:T:R'
+		if name == 'terms':
+			return '( G:and:off' + ''.join(' ' + show(c) for c in body) + ' )'
+		if name == 'terms_or':
+			return '( G:or:off' + ''.join(' ' + show(c) for c in body) + ' )'
+		if name == 'expr_opt':
+			return '( G:and:[]' + ''.join(' ' + show(c) for c in body) + ' )'
+		rep = body[-1][1] if body[-1][0] == 'repeat' else 'off'
+		return f'( G:and:{rep}' + ''.join(' ' + show(c) for c in body[:-1]) + ' )'
+
+	out = []
+	for _, (sym, unwrap, expr) in tree[1]:
+		key = sym[1] + (f'[{unwrap[1]}]' if unwrap[0] == 'unwrap' else '')
+		out.append(f'{hx(key)}={show(expr)}')
+	return ';'.join(out)
+
+
 def lark_terminals(rules: dict[str, tuple[str, Any]]) -> tuple[list[str], list[str]]:
 	strings: list[str] = []
 	regexps: list[str] = []
